@@ -44,8 +44,8 @@ CLAIMS = {
  "C11": ("Grammar acceptance (mirsym): a token sequence within the bound is accepted iff it is a sentence (dangling operators, '!' without operand, unbalanced/empty parentheses, unknown primary are rejected). No panic and accept/reject per the documented sets for the leaf operand parsers (Kani): -printf format leaves (advance_one, peek, advance_by, escape sequences; ASCII and 2-byte UTF-8 at any position), -type/-xtype letters, -size unit suffix, -perm prefix, xargs -d operand.  Kani checks every reachable panic/overflow/slice index in all harnesses of this suite for the code they execute.",
          "Kani: leaves only. mirsym: build_matcher_tree accepts exactly the sentences of the grammar for all token sequences of length <= 4 over the vocabulary (operators, parentheses, '!', eight operand-free primaries, one unknown word) and never panics there. mirsym c11_operands: 21 operand-taking primaries (incl. -newerXY spellings with junk) x 26 operand words (valid, near-miss, huge, empty) for sequences of 1..2 tokens (3 over a reduced vocabulary): accepted iff in the grammar with a valid operand; missing operands rejected; the regex crate is modelled by Python re on the pattern text in the MIR. Known finding F-C11-newer-prefix. -perm/-user/-group/-regex/-exec operands (uucore, FFI, onig), 'rejected before any file is visited' (do_find) are NOT covered.",
          "4 C11"),
- "C12": ("The glob -> POSIX BRE translation table for single atoms: every ASCII literal is escaped iff special in a BRE; '?' -> '.', '*' -> '.*', lone backslash -> never matches (Kani). mirsym c12_glob: glob_to_regex + extract_bracket_expr + regex_push_literal from MIR on every pattern of 1..4 (thorough 5) characters over {a b * ? [ ] ! \\ .}; the BRE produced is evaluated by a matcher for the BRE subset it can emit on every subject of 0..3 characters over {a b ] ! ^ . \\ [ *} and compared with a reference POSIX fnmatch() without flags: same language, whole-string, unmatched '[' literal, trailing backslash matches nothing, '!' negation, leading ']' member.",
-         "Known finding F-C12-bracket-backslash (a backslash inside a bracket expression is not treated as a quote). Matching itself is oniguruma (C, FFI) and is trusted to implement the BRE subset; ranges, character classes / collating symbols ('[.', '[=', '[:' skipped), '^' after '[' (unspecified), case folding (-i forms), subject selection (-name/-path/-lname) are outside.",
+ "C12": ("The glob -> POSIX BRE translation table for single atoms: every ASCII literal is escaped iff special in a BRE; '?' -> '.', '*' -> '.*', lone backslash -> never matches (Kani). mirsym c12_glob: glob_to_regex + extract_bracket_expr + regex_push_literal from MIR on every pattern of 1..4 (thorough 5) characters over {a b * ? [ ] ! \\ .}; the BRE produced is evaluated by a matcher for the BRE subset it can emit on every subject of 0..3 characters over {a b ] ! ^ . \\ [ *} and compared with a reference POSIX fnmatch() without flags: same language, whole-string, unmatched '[' literal, trailing backslash matches nothing, '!' negation, leading ']' member, ranges (also from ']' and up to '-' at the edges).",
+         "Known finding F-C12-bracket-backslash (a backslash inside a bracket expression is not treated as a quote). Matching itself is oniguruma (C, FFI) and is trusted to implement the BRE subset; ranges whose start sorts after their end (undefined), character classes / collating symbols ('[.', '[=', '[:' skipped), '^' after '[' (unspecified), case folding (-i forms), subject selection (-name/-path/-lname) are outside.",
          "4 C12"),
  "C13": ("Record selection (lstat/stat, dangling fallback, -H depth 0 only) of WalkEntry::metadata for all records/errnos/follow modes; -type/-xtype, -perm (12 bits, three forms), -links, -inum, -uid, -gid, -size, -empty (non-directories), -lname's follow guard as functions of the selected record, all field values full width.",
          "stat()/lstat()/readlink() are a symbolic world under the kernel's contract; Pattern::matches cut to true in the -lname harness; -empty on directories, -samefile, -user/-group names, symbolic -perm spelling (uucore) are outside.",
